@@ -10,7 +10,8 @@ rng = random.Random(seed)
 prof = Profile()
 exs = [gen_execution(rng, rng.choice(kinds), prof) for _ in range(n)]
 t0 = time.time()
-r = run_scripts(exs, strict, os.path.join(OUT, 'dev'), 'plain')
+r = run_scripts(exs, strict, os.path.join(OUT, 'dev_%d' % os.getpid()), 'plain')
+import shutil; shutil.rmtree(os.path.join(OUT, 'dev_%d' % os.getpid()), ignore_errors=True)
 print('execs', r.executions, 'accepted', r.accepted, 'events', r.events, 'rej', len(r.rejections), 'crash', len(r.crashes), 'leaks', len(r.leaks), 'infra', (r.infra or '')[-1500:], 'wall %.1f' % (time.time() - t0))
 for j, rej in enumerate(r.rejections[:3]):
     print('--- rejection', j, 'line', rej['line_in_exec'])
